@@ -17,6 +17,7 @@ func init() {
 			"the sequence model concatenates LunarYear.GetMonthsInYear() of consecutive years; the library's Next walks the 15-month tables instead",
 		},
 		Gen: c06Gen, Run: c06Run,
+		BlockKind: "lyear", BlockQuick: [2]int{8, 12}, BlockThorough: [2]int{0, 25},
 		Exhaustive: func(tier string) bool { return true },
 		MinEvals:   map[string]int64{"quick": 300000, "thorough": 1000000},
 		Chunks:     128,
@@ -147,10 +148,21 @@ func c06Run(w *W, c Case) {
 		if got == nil || got.GetYear() != y || got.GetMonth() != m.month || got.GetDayCount() != m.days || int(got.GetFirstJulianDay()+0.5) != m.jdn || got.IsLeap() != (m.month < 0) {
 			w.Violatef("accessors", fmt.Sprintf("%s/getmonth/%d", key, m.month), "GetMonth(%d) of %d = %v, table has %+v", m.month, y, got, m)
 		}
+		// lookups of neighbouring years' months in between (the month numbers an ordinal like year*12+month would
+		// confuse with this one come first), then this month again
+		am := absInt(m.month)
+		for _, o := range [][2]int{{y - 1, 12 - am}, {y - 1, am}, {y + 1, am}, {y + 1, -am}, {y - 1, -am}, {y, -m.month}, {y + 1, 12 - am}, {y - 2, 24 - am}} {
+			if o[0] >= minYear && o[0] <= maxYear && o[1] != 0 {
+				if om := calendar.NewLunarMonthFromYm(o[0], o[1]); om != nil && (om.GetYear() != o[0] || om.GetMonth() != o[1]) {
+					w.Violatef("accessors", fmt.Sprintf("%d/fromym/%d", o[0], o[1]), "NewLunarMonthFromYm(%d,%d) is month %d of year %d", o[0], o[1], om.GetMonth(), om.GetYear())
+				}
+			}
+		}
 		fy := calendar.NewLunarMonthFromYm(y, m.month)
-		if fy == nil || fy.GetMonth() != m.month || fy.GetDayCount() != m.days {
+		if fy == nil || fy.GetYear() != y || fy.GetMonth() != m.month || fy.GetDayCount() != m.days || int(fy.GetFirstJulianDay()+0.5) != m.jdn {
 			w.Violatef("accessors", fmt.Sprintf("%s/fromym/%d", key, m.month), "NewLunarMonthFromYm(%d,%d) = %v, table has %+v", y, m.month, fy, m)
 		}
+		w.Eval(1)
 	}
 	if ly.GetDayCount() != sum {
 		w.Violatef("accessors", key+"/daycount", "GetDayCount()=%d, months of %d sum to %d", ly.GetDayCount(), y, sum)
